@@ -41,12 +41,29 @@ def op_events(pr, cdir, godir, endian):
                       "endian": "-", "zeroed": True, "uses_byte_view": False, "stmts": st}
                 if kind == "enc":
                     # where the encoder's buffer s comes from
-                    decl = [l.strip() for l in lines if re.match(r"\s*(var\s+s\b|s\s*:?=)", l)]
-                    mk = re.fullmatch(r"s := make\(\[\]byte, (\d+)\)", decl[0]) if len(decl) == 1 else None
-                    ev["buffer"] = {"kind": "fresh", "n": int(mk.group(1))} if mk else \
-                        {"kind": "other", "n": 0, "text": "; ".join(decl)[:120]}
+                    ev["buffer"] = go_buffer_origin(lines, gtext)
                 events.append(ev)
     return events
+
+
+def go_buffer_origin(lines, gtext):
+    """Where a Go optimization-mode encoder's buffer s comes from: {"kind": "fresh", "n": N} for a zeroed buffer
+    made by this call (make([]byte, N), make([]byte, N, N), var s [N]byte), {"kind": "shared"} when s is taken from
+    a package-level variable; any other form cannot be judged (machinery failure, never a verdict)."""
+    decl = [l.strip() for l in lines if re.match(r"\s*(var\s+s\b|s\s*:?=)", l)]
+    if len(decl) != 1:
+        raise common.MachineryError("Go encoder: %d declarations of s: %s" % (len(decl), decl[:3]))
+    d = decl[0]
+    for pat in (r"s := make\(\[\]byte, (\d+)\)", r"s := make\(\[\]byte, (\d+), \1\)", r"var s = make\(\[\]byte, (\d+)\)",
+                r"var s \[(\d+)\]byte", r"s := \[(\d+)\]byte\{\}"):
+        mk = re.fullmatch(pat, d)
+        if mk:
+            return {"kind": "fresh", "n": int(mk.group(1))}
+    pkg = set(re.findall(r"^var\s+(\w+)", gtext, re.M)) | set(re.findall(r"^\s+(\w+)\s+\[\d+\]byte\s*$", gtext, re.M))
+    used = set(re.findall(r"\b([A-Za-z_]\w*)\b", d.split("=", 1)[-1]))
+    if used & pkg:
+        return {"kind": "shared", "n": 0, "text": d[:120]}
+    raise common.MachineryError("Go encoder: cannot tell where the buffer comes from: %s" % d[:160])
 
 
 def main(tier, replay=None):
@@ -114,9 +131,7 @@ def main(tier, replay=None):
                 gb = opparse.go_bodies(open(os.path.join(d, "main_bp.go")).read(), "Top")
                 if "enc" not in gb:
                     raise common.MachineryError("no Go Encode body for the %d-byte message" % nbytes)
-                decls_ = [l.strip() for l in gb["enc"] if re.match(r"\s*(var\s+s\b|s\s*:?=)", l)]
-                mk = re.fullmatch(r"s := make\(\[\]byte, (\d+)\)", decls_[0]) if len(decls_) == 1 else None
-                buf = {"kind": "fresh", "n": int(mk.group(1))} if mk else {"kind": "other", "n": 0, "text": "; ".join(decls_)[:120]}
+                buf = go_buffer_origin(gb["enc"], open(os.path.join(d, "main_bp.go")).read())
                 traces.append({"id": "c04-gobuf-%d" % nbytes, "t": {"k": "bool"},
                                "events": [{"ev": "GoEncBuffer", "t": gen.export_type(pr["rtype"]), "msg": "Top", "buffer": buf,
                                            "stmts": [], "mode": "go", "branch": "go", "kind": "enc-buffer", "endian": "-"}]})
